@@ -258,14 +258,16 @@ func doObjdump(binary, hash string) (string, error) {
 		}
 	}
 
-	f, err = os.Create(dumpFile)
+	// Write the objdump to a temporary file and rename it when it is complete. A run that is
+	// interrupted or whose objdump fails must not leave a partial file with a valid hash behind.
+	f, err = os.CreateTemp(filepath.Dir(dumpFile), filepath.Base(dumpFile)+".tmp")
 	if err != nil {
 		return "", err
 	}
+	defer os.Remove(f.Name())
 	defer f.Close()
 
 	out := bufio.NewWriter(f)
-	defer out.Flush()
 
 	if _, err = out.WriteString(hash + "\n"); err != nil {
 		return "", err
@@ -274,6 +276,16 @@ func doObjdump(binary, hash string) (string, error) {
 	cmd := exec.Command("go", "tool", "objdump", binary)
 	cmd.Stdout = out
 	if err = cmd.Run(); err != nil {
+		return "", err
+	}
+
+	if err = out.Flush(); err != nil {
+		return "", err
+	}
+	if err = f.Close(); err != nil {
+		return "", err
+	}
+	if err = os.Rename(f.Name(), dumpFile); err != nil {
 		return "", err
 	}
 
